@@ -44,6 +44,8 @@ def main(tier, replay=None):
         return c.finish(TRUSTED, no_input_break="extraction/OCaml build of the Import/Remove model failed: " + err[-1500:])
 
     n, nlong = (220, 6) if tier == "quick" else (1200, 36)
+    if c.escalated:   # a modelled Go function changed since the pin (c.drift): look harder
+        n, nlong = n * 3, nlong * 2
     impl = os.path.join(c.workdir, "impl.txt")
     stats = ""
     if replay:
